@@ -176,6 +176,82 @@ impl<T: Send> MpmcShared<T> {
     }
   }
 
+  /// A parked sender that was already granted its wake (`STATE_SUCCESS_SPACE`) but will not act
+  /// on it - its future is being dropped - passes the wake on to the next parked sender, so the
+  /// freed space is not left unclaimed while senders sleep.
+  pub(crate) fn forward_sender_wake(&self) {
+    let mut guard = self.internal.lock();
+    while let Some(waiter) = guard.waiting_async_senders.pop_front() {
+      let waiter_state = unsafe { &*waiter.state };
+      if waiter_state
+        .compare_exchange(
+          STATE_WAITING,
+          STATE_SUCCESS_SPACE,
+          Ordering::SeqCst,
+          Ordering::SeqCst,
+        )
+        .is_ok()
+      {
+        waiter.waker.wake();
+        return;
+      }
+    }
+    while let Some(waiter) = guard.waiting_sync_senders.pop_front() {
+      let waiter_state = unsafe { &*waiter.state };
+      if waiter_state
+        .compare_exchange(
+          STATE_WAITING,
+          STATE_SUCCESS_SPACE,
+          Ordering::SeqCst,
+          Ordering::SeqCst,
+        )
+        .is_ok()
+      {
+        waiter.thread.unpark();
+        return;
+      }
+    }
+  }
+
+  /// Receiver-side counterpart of `forward_sender_wake`: the item that was buffered for the
+  /// dropped future is still in the queue, so the next parked receiver is told about it.
+  pub(crate) fn forward_receiver_wake(&self) {
+    let mut guard = self.internal.lock();
+    if guard.is_empty() {
+      return;
+    }
+    while let Some(waiter) = guard.waiting_async_receivers.pop_front() {
+      let waiter_state = unsafe { &*waiter.state };
+      if waiter_state
+        .compare_exchange(
+          STATE_WAITING,
+          STATE_SUCCESS_SPACE,
+          Ordering::SeqCst,
+          Ordering::SeqCst,
+        )
+        .is_ok()
+      {
+        waiter.waker.wake();
+        return;
+      }
+    }
+    while let Some(waiter) = guard.waiting_sync_receivers.pop_front() {
+      let waiter_state = unsafe { &*waiter.state };
+      if waiter_state
+        .compare_exchange(
+          STATE_WAITING,
+          STATE_SUCCESS_SPACE,
+          Ordering::SeqCst,
+          Ordering::SeqCst,
+        )
+        .is_ok()
+      {
+        waiter.thread.unpark();
+        return;
+      }
+    }
+  }
+
   pub(crate) fn try_send_core(&self, item: T) -> Result<(), TrySendError<T>> {
     let mut guard = self.internal.lock();
 
